@@ -641,7 +641,9 @@ func (this *Writer) processBlock() error {
 		// Limit the number of jobs if there are fewer blocks that this.jobs
 		// It allows more jobs per task and reduces memory usage.
 		if this.nbInputBlocks > 0 {
-			nbTasks = min(nbTasks, this.nbInputBlocks)
+			// The input size is only a hint: never run fewer tasks than buffered blocks
+			nbBuffered := (this.available + this.blockSize - 1) / this.blockSize
+			nbTasks = min(nbTasks, max(this.nbInputBlocks, nbBuffered))
 		}
 
 		jobsPerTask, _ = internal.ComputeJobsPerTask(make([]uint, nbTasks), uint(this.jobs), uint(nbTasks))
